@@ -5,10 +5,10 @@ cd "$(dirname "$0")/.."
 OUT=${1:-/tmp/seedmatrix.out}; : > $OUT
 lane() { for s in "$@"; do p=${s:0:3}; for q in $p $(cat seeded/$s/also 2>/dev/null); do tools/seedtest.sh seeded/$s $q 2>&1 | grep '^RESULT' >> $OUT; done; done; }
 ALL=$(ls seeded | grep '^C[0-9][0-9]')
-L1=$(echo "$ALL" | grep '^C0[12]\|^C15')          # these regenerate lean/NasdaqModel/Extracted: one lane
+L1=$(echo "$ALL" | grep '^C0[12]\|^C15\|^C12')          # these regenerate lean/NasdaqModel/Extracted: one lane
 L2=$(echo "$ALL" | grep '^C0[3-7]\|^C11')
-L3=$(echo "$ALL" | grep '^C0[89]\|^C1[02346]')
+L3=$(echo "$ALL" | grep '^C0[89]\|^C1[0346]')
 L4=$(echo "$ALL" | grep '^C1[789]\|^C20')
 lane $L1 & lane $L2 & lane $L3 & lane $L4 & wait
-./check C02 > /dev/null 2>&1      # restore the extracted table of the unchanged tree
+./check C02 > /dev/null 2>&1; ./check C12 > /dev/null 2>&1      # restore the extracted tables of the unchanged tree
 sort $OUT
